@@ -103,8 +103,19 @@ def struct(t, depth=0):
         if len(ms) == 1:
             return ms[0]
         return ("union", sorted(ms, key=repr))
+    if o is typing.Literal:
+        # (the grammar also puts names into Literal[..]: Literal[dict, typing.Dict] -- members are compared like any other
+        # argument, and typing drops duplicates)
+        ms = []
+        for a in typing.get_args(t):
+            x = struct(a, depth + 1) if not isinstance(a, (str, bytes, int, bool, type(None))) else repr(a)
+            if x not in ms:
+                ms.append(x)
+        return ("literal", ms)
     if o is typing.Annotated:
-        return ("annotated", struct(t.__origin__, depth + 1), repr(t.__metadata__))
+        # (metadata that is a name goes through the same documented rewriting as any other argument: dict ~ typing.Dict)
+        return ("annotated", struct(t.__origin__, depth + 1),
+                [repr(m) if isinstance(m, (str, bytes, int, float, bool, type(None))) else struct(m, depth + 1) for m in t.__metadata__])
     if o is None:
         if isinstance(t, (tuple, list)):
             return (type(t).__name__, [struct(a, depth + 1) for a in t])
@@ -191,8 +202,9 @@ def run(ctx: Ctx) -> Outcome:
                           workers=8), "Future model depth 1 full")
     states += r2.distinct; trans += r2.generated
     if not quick:
-        r3 = tlc.must(tlc.run("Future", cfg_text=base.replace('"small"', '"full"'), workers=16, timeout=7200),
-                      "Future model depth 2 full")
+        # (staged: TLC computes initial states with one thread -- 0.76 M terms as initial states took 45 min, staged 20 s)
+        r3 = tlc.must(tlc.run("Future", cfg_text=base.replace('"small"', '"full"').replace("SPECIFICATION Spec", "SPECIFICATION SpecStaged"),
+                              workers=16, timeout=7200), "Future model depth 2 full")
         states += r3.distinct; trans += r3.generated
     emit_cfgs = [base.replace("Emit = FALSE", "Emit = TRUE"),
                  base.replace("Emit = FALSE", "Emit = TRUE").replace("Depth = 2", "Depth = 1").replace('"small"', '"full"')]
@@ -200,6 +212,12 @@ def run(ctx: Ctx) -> Outcome:
     for c in emit_cfgs:
         r = tlc.must(tlc.run("Future", cfg_text=c, workers=1, timeout=3600), "Future emit")
         terms += [p for p in r.printed if isinstance(p, dict) and "k" in p]
+    if not quick:
+        # a sample of the depth-2 universe over the full leaf set goes through the real code as well
+        r = tlc.must(tlc.run("Future", cfg_text=base.replace("Emit = FALSE", "Emit = TRUE").replace('"small"', '"full"')
+                             .replace("SPECIFICATION Spec", "SPECIFICATION SpecStaged"), workers=1, timeout=7200), "Future emit depth 2 full")
+        big = [p for p in r.printed if isinstance(p, dict) and "k" in p]
+        terms += rng.sample(big, min(len(big), 60000))
     ns = _namespace()
     events = [observe(t, ns) for t in terms]
     for src in extra_expressions(rng, 300 if quick else 5000):
